@@ -1276,6 +1276,26 @@ def extract(repo, build=None, cache=None, use_ast=True):
     args = split_args(nb[p0 + 1:match_close(nb, p0, "(", ")")])
     t["scriptFunctionsUnsafe"] = len(args) <= 3 or resolve_bool(args[3], nb + "\n" + vm) is False
 
+    # --- imports: VMOps::FindVarImport must read the imported name through GetField with the frame's sandbox flag
+    m = re.search(r"static\s+inline\s+bool\s+FindVarImport\s*\(\s*ScriptFrame\s*&\s*(\w+)", vm)
+    if not m:
+        raise Lost("vmops.hpp: VMOps::FindVarImport(ScriptFrame&, …) not found")
+    fv = m.group(1)
+    b0 = vm.index("{", match_close(vm, vm.index("(", m.start()), "(", ")"))
+    fb = vm[b0:match_close(vm, b0)]
+    reads = re.findall(r"\*\s*result\s*=\s*([^;]*);", fb)
+    ok = bool(reads) and "GetOwnField" not in fb and "->GetField(" not in fb
+    for r in reads:
+        mm = re.match(r"\s*(?:VMOps::)?GetField\s*\(|\s*[\w\.\->]+->GetFieldByName\s*\(", r)
+        if not mm:
+            ok = False
+            continue
+        p0 = r.index("(", mm.end() - 1)
+        a = [norm_atom(x) for x in split_args(r[p0 + 1:match_close(r, p0, "(", ")")])]
+        if fv + ".Sandboxed" not in a:
+            ok = False
+    t["importReadSandboxed"] = ok
+
     # --- natives: every `new [icinga::]Function("Ns#name", callback, args, flag…)` AFTER PREPROCESSING (so any
     # registration macro, wrapper macro or named constant for the flag reads the same); a file that cannot be
     # preprocessed (library not configured in this build) is read with the registration macros of function.hpp
@@ -1464,6 +1484,8 @@ def render(t):
     o.append("def initDictOff : Bool := " + lean_bool(t["initDictOff"]))
     o.append("/-- Reference::Get reads its field with the literal `sandboxed = true` -/")
     o.append("def refGetSandboxed : Bool := " + lean_bool(t["refGetSandboxed"]))
+    o.append("/-- VMOps::FindVarImport reads an imported name through GetField(…, frame.Sandboxed, …) -/")
+    o.append("def importReadSandboxed : Bool := " + lean_bool(t["importReadSandboxed"]))
     o.append("/-- ScriptFrame::InitializeFrame inherits `Sandboxed` from the enclosing frame -/")
     o.append("def frameInherits : Bool := " + lean_bool(t["frameInherits"]))
     o.append("/-- VMOps::NewFunction creates script functions that are not side-effect free -/")
